@@ -159,6 +159,9 @@ func init() {
 		Assume: []string{"sequentially consistent interleavings at synchronisation granularity", "fixed hedge delay; delay functions are exercised by C13-style enumeration only through the fixed builder",
 			"instrumentation by source rewriting preserves semantics (DESIGN.md §2)"},
 		Units: func(tier string) []Unit {
+			if tier == "thorough" {
+				return chunkUnits("C09", c09Scenarios(tier), 8)
+			}
 			var us []Unit
 			for _, sc := range c09Scenarios(tier) {
 				us = append(us, scenarioUnit(sc))
